@@ -4,7 +4,8 @@ from concurrent.futures import ThreadPoolExecutor
 
 VERIF = os.path.dirname(os.path.dirname(os.path.abspath(__file__)))
 REPO = os.environ.get("VERIF_REPO", "/repo")
-OUT = os.path.join(VERIF, "out")
+OUT = os.environ.get("VERIF_OUT") or os.path.join(VERIF, "out")   # VERIF_OUT: private work + evidence dir (parallel runs against scratch trees)
+EVID = os.path.join(os.environ["VERIF_OUT"], "evidence") if os.environ.get("VERIF_OUT") else os.path.join(VERIF, "evidence")
 SPEC = os.path.join(VERIF, "spec")
 JAR = "/opt/veriftools/tla/tla2tools.jar:/opt/veriftools/tla/CommunityModules-deps.jar"
 NCPU = os.cpu_count() or 4
@@ -24,7 +25,7 @@ def goenv():
     e["GOPROXY"] = "off"
     e.pop("GOTOOLCHAIN", None)
     e.pop("GOSUMDB", None)
-    e.setdefault("GOCACHE", os.path.join(OUT, "gocache"))
+    e.setdefault("GOCACHE", os.path.join(VERIF, "out", "gocache"))
     e.setdefault("HOME", os.environ.get("HOME", "/root"))
     return e
 
@@ -342,7 +343,7 @@ class Report:
     def violation(self, what, replay):
         os.makedirs(os.path.join(OUT, "replays"), exist_ok=True)
         h = hashlib.sha1(json.dumps(replay, sort_keys=True, default=str).encode()).hexdigest()[:12]
-        path = os.path.join("out", "replays", "%s-%s.json" % (self.pid, h))
+        path = os.path.join("out" if OUT == os.path.join(VERIF, "out") else OUT, "replays", "%s-%s.json" % (self.pid, h))
         replay = dict(replay)
         replay["property"] = self.pid
         replay["what"] = what
@@ -368,8 +369,8 @@ class Report:
         ev = {"property_id": self.pid, "tier": self.tier, "seed": self.seed, "level": "model_checking",
               "coverage": cov, "assumptions": self.assumptions, "wall_s": round(wall, 2),
               "violations": len(self.violations), "violation_list": self.violations[:20]}
-        os.makedirs(os.path.join(VERIF, "evidence"), exist_ok=True)
-        with open(os.path.join(VERIF, "evidence", self.pid + ".json"), "w") as f:
+        os.makedirs(EVID, exist_ok=True)
+        with open(os.path.join(EVID, self.pid + ".json"), "w") as f:
             json.dump(ev, f, indent=1, default=str)
         for kid, k in sorted(self.known_hit.items()):
             print("KNOWN-FINDING: property=%s %s %s (seen %d times)" % (self.pid, kid, k["what"], k["count"]))
